@@ -258,6 +258,18 @@ def replay(g):
                     w = W.project({"r1": doc}, docof=True)[0] if doc is not None else EMPTYW
                     yield {"fam": "reader", "src": "model", "g": g, "fmt": fmt, "mode": mode, "entry": "string", "outcome": outcome,
                            "warnings": nw, "found": find(doc) if doc is not None else {h: False for h in ORDER}, "w": w}
+                if fmt == "YAML":
+                    # the same file as the Python 2 releases of the library wrote it: texts tagged !!python/unicode; read in a
+                    # fresh process state (the constructor of the tag is registered on a class of the yaml package)
+                    import re as _re
+                    tagged = _re.sub(r"^(\s*(?:- )?(?:name|type|author|unit): )([A-Za-z%][^\n]*)$", r"\1!!python/unicode '\2'", text, flags=_re.M)
+                    yaml.SafeLoader.yaml_constructors = {k: v for k, v in yaml.SafeLoader.yaml_constructors.items() if k != "tag:yaml.org,2002:python/unicode"}
+                    for ename, fn in (("ODMLReader.from_string:py2tags", lambda: ODMLReader("YAML", show_warnings=False).from_string(tagged)),):
+                        with C.quiet():
+                            outcome, doc = classify(fn)
+                        w = W.project({"r1": doc}, docof=True)[0] if doc is not None else EMPTYW
+                        yield {"fam": "reader", "src": "model", "g": g, "fmt": fmt, "mode": "strict", "entry": ename, "outcome": outcome,
+                               "warnings": 0, "found": find(doc) if doc is not None else {h: False for h in ORDER}, "w": w}
                 # the high-level reader (strict; it validates what it has read)
                 with C.quiet():
                     outcome, doc = classify(lambda: ODMLReader(fmt).from_string(text))
